@@ -38,6 +38,17 @@ REPO = os.environ.get("VERIF_REPO", "/repo")
 VERIF = os.path.dirname(os.path.dirname(os.path.abspath(__file__)))
 
 
+LENIENT = {"on": False, "lost": []}
+
+
+def _hint_lost(msg):
+    """A proof-hint anchor cannot be placed.  Strict mode: undecided.  Lenient mode: drop the hint and remember it."""
+    if LENIENT["on"]:
+        LENIENT["lost"].append(msg)
+        return True
+    raise ExtractError(msg)
+
+
 class ExtractError(Exception):
     """Lost anchor / unsupported shape: the run is undecided (exit 2), never a violation."""
 
@@ -370,34 +381,41 @@ def _process_body(fs, body, src, b0, applied, out, tail_check=True):
     for n, lines in fs.loops.items():
         pos = [(p, ie) for (i_, p, _, ie, _e, _s) in loop_positions if i_ == n]
         if not pos:
-            raise ExtractError("lost anchor: %s has no loop #%d (found %d)" % (fs.id, n, len(loop_positions)))
+            _hint_lost("lost anchor: %s has no loop #%d (found %d)" % (fs.id, n, len(loop_positions)))
+            continue
         inserts.append((pos[0][0], "split", lines))
         if n in fs.loop_iter:
             if pos[0][1] is None:
-                raise ExtractError("lost anchor: loop #%d of %s is not a `for .. in` loop" % (n, fs.id))
+                _hint_lost("lost anchor: loop #%d of %s is not a `for .. in` loop" % (n, fs.id))
+                inserts.pop()
+                continue
             # ghost name of the iterator (Verus `for x in it: expr`): a pure insertion on its own line
             inserts.append((pos[0][1], "split", [" " + fs.loop_iter[n] + ":"]))
     for n, lines in fs.after_loops.items():
         pos = [e for (i_, _p, _t, _ie, e, _s) in loop_positions if i_ == n]
         if not pos:
-            raise ExtractError("lost anchor: %s has no loop #%d" % (fs.id, n))
+            _hint_lost("lost anchor: %s has no loop #%d" % (fs.id, n))
+            continue
         inserts.append((pos[0], "split", lines))
     for n, lines in fs.before_loops.items():
         pos = [s_ for (i_, _p, _t, _ie, _e, s_) in loop_positions if i_ == n]
         if not pos:
-            raise ExtractError("lost anchor: %s has no loop #%d" % (fs.id, n))
+            _hint_lost("lost anchor: %s has no loop #%d" % (fs.id, n))
+            continue
         inserts.append((pos[0], "split", lines))
     for n, lines in fs.loop_starts.items():
         pos = [p_ + 1 for (i_, p_, _t, _ie, _e, _s) in loop_positions if i_ == n]
         if not pos:
-            raise ExtractError("lost anchor: %s has no loop #%d" % (fs.id, n))
+            _hint_lost("lost anchor: %s has no loop #%d" % (fs.id, n))
+            continue
         inserts.append((pos[0], "split", lines))
     # contract text inserted in the middle of a line (closure signatures): after / before a unique piece of source text
     for kind, lst in (("after", fs.insert_after), ("before", fs.insert_before)):
         for anchor, lines in lst:
             cnt = body.count(anchor)
             if cnt != 1:
-                raise ExtractError("lost anchor: %s: text %r occurs %d times" % (fs.id, anchor, cnt))
+                _hint_lost("lost anchor: %s: text %r occurs %d times" % (fs.id, anchor, cnt))
+                continue
             k = body.index(anchor)
             inserts.append((k + len(anchor) if kind == "after" else k, "split", lines))
     # body-start
@@ -414,12 +432,13 @@ def _process_body(fs, body, src, b0, applied, out, tail_check=True):
         for anchor, lines in lst:
             hits = [i_ for i_, ln in enumerate(blines) if _norm(anchor) in _norm(ln)]
             if len(hits) != 1:
-                raise ExtractError("lost anchor: %s: %r matches %d body lines" % (fs.id, anchor, len(hits)))
-            i_ = hits[0]
-            if kind == "before":
-                inserts.append((offs[i_], "line", lines))
-            else:
-                inserts.append((offs[i_] + len(blines[i_]) + 1, "line", lines))
+                _hint_lost("lost anchor: %s: %r matches %d body lines" % (fs.id, anchor, len(hits)))
+                # lenient: an ambiguous anchor gets the hint at every match, a missing one gets none
+            for i_ in (hits if len(hits) != 1 else hits[:1]):
+                if kind == "before":
+                    inserts.append((offs[i_], "line", list(lines)))
+                else:
+                    inserts.append((offs[i_] + len(blines[i_]) + 1, "line", list(lines)))
     # apply rewrites to body segments between insert points (offsets refer to the unrewritten body)
     inserts.sort(key=lambda x: x[0])
     cuts = [0] + [p for p, _, _ in inserts] + [len(body)]
@@ -833,7 +852,9 @@ def canary_levels(template):
     return [set(x[0] for x in lv) for lv in levels]
 
 
-def generate(template, out_path, canary=False):
+def generate(template, out_path, canary=False, lenient=False):
+    LENIENT["on"] = lenient
+    LENIENT["lost"] = []
     parts = parse_template(template)
     gen = []
     infos = []
@@ -870,7 +891,9 @@ def generate(template, out_path, canary=False):
         if g.fn:
             r = ranges.setdefault(g.fn, [n, n])
             r[1] = n
-    return {"unit": os.path.splitext(os.path.basename(template))[0], "file": out_path, "functions": infos,
+    lost = list(LENIENT["lost"])
+    LENIENT["on"] = False
+    return {"unit": os.path.splitext(os.path.basename(template))[0], "file": out_path, "functions": infos, "lost_hints": lost,
             "ranges": ranges, "lines": linemap, "rewrite_statements": {k: v[2] for k, v in REWRITES.items()}}
 
 
